@@ -48,6 +48,7 @@ type EntryResult struct {
 	Samples     []Sample          `json:"samples"`
 	Status      string            `json:"status"`
 	Opts        map[string]string `json:"bounds,omitempty"`
+	funcs       map[string]struct{}
 }
 
 func main() {
@@ -225,6 +226,7 @@ func cmdRun(args []string) int {
 		r := &EntryResult{Entry: e.Name, Paths: ex.paths, Forks: ex.forks, Branches: ex.branches, EndReasons: ex.endReasons,
 			Obligations: ex.obligations, ConcreteObl: ex.concreteObl, IvObl: ex.ivObl, IvDecided: ex.ivDecided,
 			Queries: map[string]int{"total": ex.sstats.Queries, "sat": ex.sstats.Sat, "unsat": ex.sstats.Unsat, "unknown": ex.sstats.Unknown, "solver_errors": ex.sstats.Errors, "fallback_calls": ex.fbCalls, "fallback_decided_by_cvc5_bv_as_int": ex.fbCvc5, "fallback_decided_by_fresh_z3": ex.fbZ3, "fallback_models_rejected_by_evaluation": ex.fbBad, "solver_processes_recycled": ex.recycled, "solver_processes_restarted_after_death": ex.revived},
+			funcs:   ex.funcs,
 			SolverS: ex.sstats.Time.Seconds(), WallS: time.Since(t0).Seconds(), Steps: ex.steps, Reach: ex.reach,
 			Violations: len(ex.violations), Unknowns: ex.unknowns, Unsupported: ex.unsupported, EngineErrs: ex.engineErrs, Samples: ex.samples, Opts: e.Opts}
 		results = append(results, r)
@@ -545,8 +547,27 @@ func writeEvidence(id, tier string, seed int, results []*EntryResult, h *Harness
 		if r.Status == "held" {
 			disch += r.Obligations
 		}
+		for f := range r.funcs {
+			funcs[f] = struct{}{}
+		}
 	}
-	_ = funcs
+	// functions of the repository under test whose SSA was executed
+	// symbolically (harness functions excluded), and how many functions of
+	// dependencies and the standard library were executed with them
+	var repoFuncs []string
+	otherFuncs := 0
+	for f := range funcs {
+		if strings.Contains(f, repoMod+"/") && !strings.Contains(f, "/internal/vx.") {
+			name := f[strings.LastIndex(f, "/")+1:]
+			if strings.Contains(name, ".vx") || strings.Contains(name, ".Vx") {
+				continue
+			}
+			repoFuncs = append(repoFuncs, strings.ReplaceAll(f, repoMod+"/", ""))
+		} else {
+			otherFuncs++
+		}
+	}
+	sort.Strings(repoFuncs)
 	if len(samples) == 0 {
 		samples = append(samples, map[string]any{"note": "no path completed: " + status})
 	}
@@ -573,23 +594,25 @@ func writeEvidence(id, tier string, seed int, results []*EntryResult, h *Harness
 		"wall_s":      wall.Seconds(),
 		"violations":  nviol,
 		"coverage": map[string]any{
-			"states":                        states,
-			"transitions":                   trans,
-			"traces_validated_against_impl": tracesValidated,
-			"samples":                       samples,
-			"status":                        status,
-			"repo_revision":                 repoRevision(),
-			"technique":                     "bounded symbolic execution of go/ssa from /repo's working tree; every path condition and assertion decided by z3 (QF_BV); states = feasible paths, transitions = symbolic branch decisions",
-			"entries":                       results,
-			"obligations":                   obl,
-			"discharged":                    disch,
-			"queries":                       q,
-			"solver_s":                      solverS,
-			"ssa_instructions_executed":     steps,
-			"stubs":                         stubs,
-			"harness_notes":                 h.Notes,
-			"closed_world_scans":            scanResults,
-			"exhaustive":                    status == "held",
+			"states":                         states,
+			"transitions":                    trans,
+			"traces_validated_against_impl":  tracesValidated,
+			"samples":                        samples,
+			"status":                         status,
+			"repo_revision":                  repoRevision(),
+			"functions_encoded":              repoFuncs,
+			"functions_encoded_dependencies": otherFuncs,
+			"technique":                      "bounded symbolic execution of go/ssa from /repo's working tree; every path condition and assertion decided by z3 (QF_BV); states = feasible paths, transitions = symbolic branch decisions",
+			"entries":                        results,
+			"obligations":                    obl,
+			"discharged":                     disch,
+			"queries":                        q,
+			"solver_s":                       solverS,
+			"ssa_instructions_executed":      steps,
+			"stubs":                          stubs,
+			"harness_notes":                  h.Notes,
+			"closed_world_scans":             scanResults,
+			"exhaustive":                     status == "held",
 		},
 		"assumptions": append([]string{
 			"environment stubs listed under coverage.stubs return arbitrary values within their contract",
